@@ -52,7 +52,7 @@ func (w *world) exec(r *hx.Run, op []string) (res string) {
 	// throw-away cache and nothing is committed; whatever it did must be invisible to every later transaction
 	if len(op) > 1 && op[0] == "dry" {
 		switch op[1] {
-		case "key", "height", "time", "dump", "dry", "admit", "refresh", "restart", "assetbind":
+		case "key", "height", "time", "dump", "dry", "admit", "admitx", "refresh", "restart", "assetbind":
 			return "bad-op"
 		}
 		w.dry = true
